@@ -7,6 +7,62 @@ from ..txmodel import TxShape
 TITLE = 'synchronous client returns only the reply to its own request'
 
 
+def r6_unknown_size_read(ck, cx):
+    """ModbusTcpClient._recv(size=None) -- used when the reply length is unknown (a unit that did not answer last time) --
+    must keep reading until its deadline: a return as soon as *something* has arrived hands a late reply of the previous
+    transaction to the framer alone, and the real reply, which follows, is never read."""
+    ck.rule('R6', 'a read of unknown size (size=None) in the TCP client ends only on its deadline: no loop exit depends on data having arrived')
+    c = cx.idx.cls('pymodbus.client.sync.ModbusTcpClient')
+    f = cx.method(c, '_recv')
+    ck.saw('functions', f.qn)
+    size = f.params[1]
+    loops = [n for n in ast.walk(f.node) if isinstance(n, ast.While)]
+    if len(loops) != 1:
+        raise AnalysisError('expected one receive loop in %s' % f.qn)
+    loop = loops[0]
+    # names that carry received data (or its amount)
+    tainted, changed = set(), True
+    def has_taint(e):
+        return any((isinstance(x, ast.Call) and callee_name(x) == 'recv') or (isinstance(x, ast.Name) and x.id in tainted) for x in ast.walk(e))
+    while changed:
+        changed = False
+        for n in ast.walk(loop):
+            tg, val = [], None
+            if isinstance(n, ast.Assign):
+                tg, val = n.targets, n.value
+            elif isinstance(n, ast.AugAssign):
+                tg, val = [n.target], n.value
+            elif isinstance(n, ast.Expr) and isinstance(n.value, ast.Call) and callee_name(n.value) in ('append', 'extend') and isinstance(n.value.func.value, ast.Name):
+                tg, val = [n.value.func.value], n.value
+            for t in tg:
+                if isinstance(t, ast.Name) and val is not None and has_taint(val) and t.id not in tainted:
+                    tainted.add(t.id)
+                    changed = True
+    tests = {x.id for x in ast.walk(loop.test) if isinstance(x, ast.Name)}
+    n = 0
+    for p in cx.enum_region(f, c, stmts=loop.body, max_depth=0, consts={size: None}):
+        annotate(p, heap=False)
+        n += 1
+        left = p.exit == 'break' or any(e.kind == 'loop' and e.a == 'break' for e in p.ev) or (p.exit is not None and p.exit[0] in ('return',))
+        conds = [(U(e.node), e.a) for e in p.ev if e.kind == 'cond']
+        data_conds = [cd for cd in conds if any(isinstance(x, ast.Name) and x.id in tainted for x in ast.walk(ast.parse(cd[0], mode='eval')))]
+        # `if ready[0]:` decides whether to read at all, it is not an exit condition
+        timed = {x.id for nd in ast.walk(f.node) if isinstance(nd, ast.Assign) and any(isinstance(c2, ast.Call) and U(c2.func) in ('time.time', 'time.monotonic')
+                                                                                         for c2 in ast.walk(nd.value))
+                 for t_ in nd.targets for x in ast.walk(t_) if isinstance(x, ast.Name)}
+        deadline = [cd for cd in conds if cd[1] is True and any(isinstance(x, ast.Name) and x.id in timed for x in ast.walk(ast.parse(cd[0], mode='eval')))]
+        if left:
+            ck.ob('R6', f.qn, 'with size=None the loop is left only because the deadline has passed', bool(deadline),
+                  detail='unknown-size-read-ends-on-data %s' % data_conds[:2], loc=cx.floc(f),
+                  message='ModbusTcpClient._recv(size=None) can stop as soon as data has arrived (%s): a late reply to the previous request is '
+                          'returned alone and the reply to this request is never read' % data_conds[:2])
+        for e in p.ev:
+            if e.kind in ('assign', 'aug') and isinstance(e.a, ast.Name) and e.a.id in tests and has_taint(e.node.value):
+                ck.ob('R6', f.qn, 'with size=None the loop-test variable does not depend on received data', False,
+                      detail='unknown-size-loop-test-tainted %s' % e.a.id, loc=cx.floc(f, e.node))
+    ck.floor('R6', n, 2, 'loop-body paths with size=None')
+
+
 def run(ck, tier):
     cx = Ctx()
     sh = TxShape(cx)
@@ -106,6 +162,7 @@ def run(ck, tier):
     okp, _why = removes_on_pickup(cx, g, tm)
     ck.ob('R5', g.qn, 'getTransaction(tid) removes the entry it returns', okp, detail='reply-not-removed', loc=cx.floc(g),
           message='DictTransactionManager.getTransaction leaves the reply in the table: a later transaction that receives nothing returns the older reply as its answer')
+    ck.guard(r6_unknown_size_read, ck, cx)
     ck.assume('correctness of decoded values is C01/C02; behaviour over all reply contents and histories is not decided')
     return cx.idx
 
